@@ -9,8 +9,15 @@ What is extracted (and from where):
         condition under which they are applied, the definition of `ncoeffs`
       - which HDU is current when `countAuxKeywords(fits)` is called (before / after the `fits_movnam_hdu` loop)
   * fitsio.h read_fits_core and convolve.h convolve: every allocate<T>(n) / deallocate(p, n) call in source
-    order, with element type, count expression, enclosing loop (per aux key / per dimension) and, in convolve,
-    its position relative to the statements that install the post-convolution shape.
+    order, with element type, count expression, enclosing loop (per aux key / per dimension), the `if` condition
+    around it inside the loop body (translated: `storedlen != valuelen` for the second block of a quoted aux value)
+    and, in convolve, its position relative to the statements that install the post-convolution shape.
+    Calls inside a `catch` handler that re-throws belong to the failing path only and are listed but not modelled.
+    `storage_guard g(this)` must be dismissed unconditionally after the last allocator call (then its destructor
+    requests nothing on the path that returns normally).  Every assignment to a pointer member must be an
+    allocate call, a null, a local that holds an allocate result, or the alias `&extents[0][…]`.
+  * the conditions under which read_fits_core rejects a file because of its shape (`throw` in the knot loop whose
+    condition mentions only nknots[i], order[i], naxes[i]) and under which convolve rejects its arguments.
   * sizeof constants and FLEN_KEYWORD / FLEN_VALUE / sizeof(splinetable<>): measured by compiling a one-liner
     against the same include tree.
 Everything is translated to Lean `Nat` expressions.  The generator FAILS CLOSED (exit 1, no file written) when
@@ -90,8 +97,13 @@ def function_body(src, signature_re):
 
 # ------------------------------------------------------------------------------------------------ statement tree
 class Node:
-    def __init__(self, kind, text="", head="", body=None, orelse=None):
+    count = 0
+
+    def __init__(self, kind, text="", head="", body=None, orelse=None, handlers=None):
         self.kind, self.text, self.head, self.body, self.orelse = kind, text, head, body or [], orelse or []
+        self.handlers = handlers or []      # try: list of (head, block)
+        Node.count += 1
+        self.uid = Node.count
 
 
 def skip_ws(s, i):
@@ -105,7 +117,7 @@ def parse_stmt(s, i):
     if s[i] == "{":
         e = match_close(s, i)
         return Node("block", body=parse_seq(s[i + 1:e])), e + 1
-    m = re.match(r"(for|while|if|switch)\b\s*\(", s[i:])
+    m = re.match(r"(for|while|if)\b\s*\(", s[i:])
     if m:
         p = i + m.end() - 1
         q = match_close(s, p)
@@ -119,7 +131,26 @@ def parse_stmt(s, i):
                 eb, j = parse_stmt(s, k + 4)
                 node.orelse = [eb]
         return node, j
-    if re.match(r"(do|try|catch)\b", s[i:]):
+    if re.match(r"try\b", s[i:]):
+        j = skip_ws(s, i + 3)
+        need(j < len(s) and s[j] == "{", "try without a block near: " + s[i:i + 40])
+        e = match_close(s, j)
+        node = Node("try", body=[Node("block", body=parse_seq(s[j + 1:e]))])
+        j = e + 1
+        while True:
+            k = skip_ws(s, j)
+            m = re.match(r"catch\b\s*\(", s[k:])
+            if not m: break
+            p = k + m.end() - 1
+            q = match_close(s, p)
+            b = skip_ws(s, q + 1)
+            need(b < len(s) and s[b] == "{", "catch without a block")
+            e = match_close(s, b)
+            node.handlers.append((" ".join(s[p + 1:q].split()), Node("block", body=parse_seq(s[b + 1:e]))))
+            j = e + 1
+        need(node.handlers, "try without catch")
+        return node, j
+    if re.match(r"(do|catch|goto|switch)\b", s[i:]):
         raise GenError("unsupported control construct near: " + s[i:i + 40])
     # plain statement: up to ';' at bracket depth 0
     j, depth = i, 0
@@ -145,18 +176,34 @@ def parse_seq(s):
         res.append(node)
 
 
+def last_stmt(nodes):
+    """text of the last plain statement executed by a statement sequence that ends in one, else None"""
+    if not nodes: return None
+    nd = nodes[-1]
+    if nd.kind == "stmt": return nd.text
+    if nd.kind == "block": return last_stmt(nd.body)
+    return None
+
+
 def walk(nodes, ctx=()):
-    """yield (statement text, ctx) in source order; ctx = tuple of ('for'|'if'|'else'|..., head)"""
+    """yield (statement text, ctx) in source order; ctx = tuple of (kind, head, uid-of-the-node) with kind one of
+    'for' | 'while' | 'if' | 'else' | 'try' | 'catch' ('catch' only for handlers that end by throwing)"""
     for nd in nodes:
         if nd.kind == "stmt":
             yield nd.text, ctx
         elif nd.kind == "block":
             for x in walk(nd.body, ctx): yield x
         elif nd.kind == "if":
-            for x in walk(nd.body, ctx + (("if", nd.head),)): yield x
-            for x in walk(nd.orelse, ctx + (("else", nd.head),)): yield x
+            for x in walk(nd.body, ctx + (("if", nd.head, nd.uid),)): yield x
+            for x in walk(nd.orelse, ctx + (("else", nd.head, nd.uid),)): yield x
+        elif nd.kind == "try":
+            for x in walk(nd.body, ctx + (("try", "", nd.uid),)): yield x
+            for head, blk in nd.handlers:
+                ls = last_stmt([blk])
+                need(ls is not None and re.match(r"throw\b", ls), "catch (%s) handler that does not end by throwing: execution would continue after it" % head)
+                for x in walk([blk], ctx + (("catch", head, nd.uid),)): yield x
         else:
-            for x in walk(nd.body, ctx + ((nd.kind, nd.head),)): yield x
+            for x in walk(nd.body, ctx + ((nd.kind, nd.head, nd.uid),)): yield x
 
 
 # ------------------------------------------------------------------------------------------------ expressions
@@ -183,9 +230,15 @@ class Expr:
         self.lean, self.val = lean, val
 
 
-def translate(e, env, sizes):
-    """C unsigned-integer expression -> Lean Nat expression.  env: C name -> Lean name (or int constant)."""
-    toks = tokenize(e)
+CAST = re.compile(r"\b(?:size_t|uint64_t|uint32_t|unsigned)\s*\(")
+
+
+def translate(e, env, sizes, subs=None):
+    """C unsigned-integer expression -> Lean Nat expression.  env: C name -> Lean name (or int constant).
+    Function-style casts to an unsigned type of a non-negative value are the identity on Nat.
+    subs: if a list, every subtraction `a - b` met is appended as (lean a, lean b) so that the caller can state
+    when the unsigned subtraction would wrap around (Lean's subtraction truncates at 0 instead)."""
+    toks = tokenize(CAST.sub("(", e))
     pos = [0]
 
     def peek():
@@ -202,6 +255,8 @@ def translate(e, env, sizes):
         if op == "<<":
             need(b.val is not None, "shift by a non-constant")
             return Expr("(%s * %d)" % (a.lean, 1 << b.val), v)
+        if op == "-" and subs is not None:
+            subs.append((a.lean, b.lean))
         return Expr("(%s %s %s)" % (a.lean, op, b.lean), v)
 
     def primary():
@@ -241,6 +296,75 @@ def translate(e, env, sizes):
     r = shift()
     need(pos[0] == len(toks), "trailing tokens in " + e)
     return r
+
+
+def split_top(s, sep):
+    """split at `sep` outside brackets"""
+    parts, depth, cur, i = [], 0, "", 0
+    while i < len(s):
+        c = s[i]
+        if c in OPEN: depth += 1
+        if c in CLOSE: depth -= 1
+        if depth == 0 and s.startswith(sep, i):
+            parts.append(cur); cur = ""; i += len(sep); continue
+        cur += c; i += 1
+    parts.append(cur)
+    return [p.strip() for p in parts]
+
+
+def cond_identifiers(c):
+    """identifiers (with one subscript, as the expression tokenizer reads them) of a C condition; None if it has
+    something else than identifiers, numbers, casts, arithmetic and comparison operators"""
+    c = CAST.sub("(", c)
+    ids, i = set(), 0
+    while i < len(c):
+        if c[i].isspace(): i += 1; continue
+        m = re.compile(r"(?:this->)?[A-Za-z_]\w*(?:\[[^\]]*\])?").match(c, i)
+        if m:
+            j = m.end()
+            if j < len(c) and c[j] in "([.":      # a call, a second subscript, a member access
+                return None
+            if c.startswith("->", j) or c.startswith("::", j): return None
+            ids.add(re.sub(r"\s+", "", m.group(0))); i = j; continue
+        m = re.compile(r"\d+[uUlL]*|\|\||&&|[!=<>]=|[-+*/%()<>]").match(c, i)
+        if not m: return None
+        i = m.end()
+    return ids
+
+
+def translate_cond(c, env, sizes):
+    """C condition over unsigned quantities -> Lean Bool expression.
+    Grammar: disjunction of conjunctions of single comparisons `a OP b` (OP one of != == < <= > >=); no negation,
+    no parenthesised boolean sub-expression.  An unsigned subtraction is accepted only on one side of `!=`: there a
+    wrap-around (a < b in `a - b`) makes the two sides differ (a wrapped value is >= 2^64 - b, the other side is a
+    size far below that: the no-wrap-around assumption of the check), which is emitted as an extra disjunct."""
+    def comparison(t):
+        for op in ("!=", "==", "<=", ">="):
+            ps = split_top(t, op)
+            if len(ps) == 2: return op, ps
+        for op in ("<", ">"):
+            ps = [x for x in split_top(t.replace("<<", "\0"), op)]
+            if len(ps) == 2: return op, [x.replace("\0", "<<") for x in ps]
+        raise GenError("condition is not a single comparison: %r (in %r)" % (t, c))
+
+    def conj(t):
+        op, (l, r) = comparison(t)
+        subs = []
+        a, b = translate(l, env, sizes, subs), translate(r, env, sizes, subs)
+        if op == "!=":
+            wrap = ["decide (%s < %s)" % ab for ab in subs]
+            core = "(%s != %s)" % (a.lean, b.lean)
+            return "(" + " || ".join(wrap + [core]) + ")" if wrap else core
+        need(not subs, "unsigned subtraction inside a `%s` comparison is not understood: %r" % (op, t))
+        if op == "==": return "(%s == %s)" % (a.lean, b.lean)
+        return "decide (%s %s %s)" % (a.lean, {"<": "<", "<=": "≤", ">": ">", ">=": "≥"}[op], b.lean)
+
+    need("!" not in c.replace("!=", ""), "negation in a condition is not understood: " + c)
+    ors = []
+    for d in split_top(c, "||"):
+        ands = [conj(t) for t in split_top(d, "&&")]
+        ors.append(ands[0] if len(ands) == 1 else "(" + " && ".join(ands) + ")")
+    return ors[0] if len(ors) == 1 else "(" + " || ".join(ors) + ")"
 
 
 # ------------------------------------------------------------------------------------------------ measured constants
@@ -292,8 +416,9 @@ def gen_estimate(fits_src, sizes, consts):
     naux_pos = None
     out = {}
     for idx, (st, ctx) in enumerate(stmts):
-        loops = [h for k, h in ctx if k in ("for", "while")]
-        conds = [(k, h) for k, h in ctx if k in ("if", "else")]
+        need(all(k in ("for", "while", "if", "else") for k, h, _ in ctx), "estimateMemory: try/catch is not understood here")
+        loops = [h for k, h, _ in ctx if k in ("for", "while")]
+        conds = [(k, h) for k, h, _ in ctx if k in ("if", "else")]
         if "fits_movnam_hdu" in st or "fits_movabs_hdu" in st or "fits_movrel_hdu" in st:
             if "fits_movabs_hdu" in st:
                 need(re.search(r"fits_movabs_hdu\s*\(\s*fits\s*,\s*1\s*,", st) and not loops and "naux_hdu" not in out, "unexpected fits_movabs_hdu: " + st)
@@ -404,26 +529,138 @@ def split_top_commas(s):
 
 ALLOWED_CONDS = {("if", "nkeys > 0")}   # a FITS header always has cards; stated as an assumption of the check
 
+PTR_LHS = re.compile(r"^((?:this->)?)(\w+)((?:\s*\[[^\]]*\])*)\s*=(?!=)\s*(.*)$")
 
-def gen_sites(body, func, sizes, mtypes, env, shape_updates=None):
-    """-> list of blocks: ('one', site) | ('forAux', [site]) | ('forDim', [site]) | ('updateShape',)"""
+
+def local_names(body):
+    """locals of the function that shadow members (convolve keeps unique_ptr copies called naxes, strides, coefficients)"""
+    return set(re.findall(r"std::unique_ptr<[^;{}]*?>\s+(\w+)\s*\(", body))
+
+
+def check_pointer_assignments(stmts, func, mtypes, shadows):
+    """Every assignment to a pointer-valued member (array pointer, or element of an array of pointers) must be
+    understood: an allocate call (plus the `+ order[i]` offset of the knot vectors), a null, a local that was itself
+    assigned from an allocate call, or the alias `extents[i] = &extents[0][...]`.  Returns what it saw."""
+    alloc_locals = set()
+    for st, _ in stmts:
+        m = re.match(r"^(\w+)\s*=\s*allocate\s*<", st)
+        if m and m.group(1) not in mtypes: alloc_locals.add(m.group(1))
+    for name in alloc_locals:
+        need(any(re.match(r"^\w+_ptr\s+%s$" % re.escape(name), st) for st, _ in stmts), "%s: local %s receives an allocate result but is not declared as a *_ptr" % (func, name))
+    seen = {"allocate": 0, "null": 0, "local": 0, "alias": 0}
+
+    def check(st, whole):
+        m = PTR_LHS.match(st)
+        if not m: return False
+        this, base, subs, rhs = m.group(1), m.group(2), m.group(3), m.group(4).strip()
+        if base not in mtypes or (not this and base in shadows): return False
+        depth = mtypes[base].count("_ptr") - subs.count("[")
+        need(depth >= 0, "%s: too many subscripts: %s" % (func, whole))
+        if depth == 0: return False           # an element (number / character), not a pointer
+        if re.match(r"^allocate\s*<\s*[\w:]+\s*>\s*\(", rhs):
+            q = match_close(rhs, rhs.index("("))
+            tail = rhs[q + 1:].strip()
+            need(tail == "" or re.match(r"^\+\s*order\[i\]$", tail), "%s: unexpected arithmetic on an allocate result: %s" % (func, whole))
+            seen["allocate"] += 1
+        elif rhs in ("nullptr", "NULL", "0"):
+            seen["null"] += 1
+        elif rhs in alloc_locals:
+            seen["local"] += 1
+        elif base == "extents" and subs.count("[") == 1 and re.match(r"^&\s*extents\[0\]\[[^\]]*\]$", rhs):
+            seen["alias"] += 1
+        elif check(rhs, whole):                # chained assignment  a = b = NULL
+            pass
+        else:
+            raise GenError("%s: pointer member assigned something the translator does not understand: %s" % (func, whole))
+        return True
+
+    for st, _ in stmts:
+        check(st, st)
+    return seen
+
+
+def check_guard(stmts, func, head_src, site_positions):
+    """`storage_guard g(this);` releases the whole table from its destructor unless dismissed.  On the path that
+    returns normally it must therefore be dismissed: unconditionally, after the last allocator call."""
+    decl = [(k, st, ctx) for k, (st, ctx) in enumerate(stmts) if re.match(r"^storage_guard\b", st)]
+    if not decl:
+        need(not any("storage_guard" in st for st, _ in stmts), "%s: storage_guard used in a way the translator does not understand" % func)
+        return None
+    need(len(decl) == 1, "%s: more than one storage_guard" % func)
+    k, st, ctx = decl[0]
+    m = re.match(r"^storage_guard\s+(\w+)\s*\(\s*this\s*\)$", st)
+    need(m and not ctx, "%s: unrecognised storage_guard declaration: %s" % (func, st))
+    g = m.group(1)
+    gdef = re.search(r"struct\s+storage_guard\s*\{(.*?)\}\s*;", head_src, re.S)
+    need(gdef, "storage_guard is not defined in splinetable.h")
+    need(re.search(r"~storage_guard\s*\(\s*\)\s*\{\s*if\s*\(\s*table\s*\)\s*table->release_storage\s*\(\s*\)\s*;\s*\}", gdef.group(1))
+         and re.search(r"void\s+dismiss\s*\(\s*\)\s*\{\s*table\s*=\s*(NULL|nullptr|0)\s*;\s*\}", gdef.group(1)),
+         "storage_guard no longer is `~storage_guard(){ if(table) table->release_storage(); }` with `dismiss(){ table=NULL; }`")
+    uses = [(j, s2, c2) for j, (s2, c2) in enumerate(stmts) if j != k and re.search(r"\b%s\b\s*[.=(]" % re.escape(g), s2) and not re.match(r"^storage_guard\b", s2)]
+    need(len(uses) == 1 and re.match(r"^%s\s*\.\s*dismiss\s*\(\s*\)$" % re.escape(g), uses[0][1]) and not uses[0][2],
+         "%s: the storage guard is not dismissed exactly once, unconditionally: %s" % (func, [u[1] for u in uses]))
+    need(uses[0][0] > k and all(p < uses[0][0] for p in site_positions) , "%s: allocator calls after the storage guard is dismissed" % func)
+    return {"declared": st, "dismissed": uses[0][1], "allocator_calls_before_guard": sum(1 for p in site_positions if p < k)}
+
+
+def reject_conditions(stmts, func, env, sizes, loop_re):
+    """conditions of `if (c) throw …;` whose identifiers are all in env (the shape quantities of the model), inside the
+    loop matched by loop_re (None: top level), as Lean Bool expressions.  Throws guarded by other quantities (cfitsio
+    status, knot values, …) reject further files and are outside the size model."""
+    res, skipped = [], []
+    for st, ctx in stmts:
+        if not re.match(r"^throw\b", st): continue
+        loops = [h for k, h, _ in ctx if k in ("for", "while")]
+        if loop_re is None:
+            if loops: continue
+        elif not (len(loops) == 1 and re.search(loop_re, loops[0])): continue
+        conds = [(k, h) for k, h, _ in ctx if k not in ("for", "while")]
+        if len(conds) != 1 or conds[0][0] != "if":
+            skipped.append(" / ".join("%s(%s)" % kh for kh in conds)); continue
+        ids = cond_identifiers(conds[0][1])
+        if ids is None or not ids or not ids <= set(env):
+            skipped.append(conds[0][1]); continue
+        res.append((conds[0][1], translate_cond(conds[0][1], env, sizes)))
+    return res, skipped
+
+
+def gen_sites(body, func, sizes, mtypes, env, head_src, shape_updates=None, cond_env=None):
+    """-> (blocks, info); blocks: ('one', site) | ('forAux', [site]) | ('forDim', [site]) | ('updateShape',)"""
     blocks = []
     upd_seen = []
+    failure_only = []
+    positions = []
+    stmts = list(walk(parse_seq(body)))
 
     def classify(ctx, st):
-        loops = [h for k, h in ctx if k in ("for", "while")]
-        for k, h in ctx:
-            if k in ("if", "else"):
-                need((k, h) in ALLOWED_CONDS, "%s: allocation under an unknown condition `%s`: %s" % (func, h, st))
-        if not loops: return "one"
+        """-> (kind, uid of the loop, lean condition, condition source) or None for a failure-path-only call"""
+        loops = [(h, u) for k, h, u in ctx if k in ("for", "while")]
+        cond, cond_src = [], []
+        if any(k == "catch" for k, _, _ in ctx): return None
+        in_loop = False
+        for k, h, _ in ctx:
+            if k in ("for", "while"): in_loop = True
+            if k in ("for", "while", "try") or (k, h) in ALLOWED_CONDS: continue
+            need(k == "if" and in_loop and cond_env is not None,
+                 "%s: allocator call under a condition the translator does not understand `%s(%s)`: %s" % (func, k, h, st))
+            ids = cond_identifiers(h)
+            need(ids is not None and ids and ids <= set(cond_env), "%s: allocator call under an unknown condition `%s`: %s" % (func, h, st))
+            cond.append(translate_cond(h, cond_env, sizes)); cond_src.append(h)
+        need(len(cond) <= 1, "%s: allocator call under nested conditions: %s" % (func, st))
+        lean_cond = cond[0] if cond else "true"
+        if not loops:
+            need(not cond, "%s: conditional allocator call outside a loop: %s" % (func, st))
+            return ("one", None, lean_cond, "")
         need(len(loops) == 1, "%s: allocation in a nested loop: %s" % (func, st))
-        cond = loops[0].split(";")[1] if loops[0].count(";") == 2 else ""
-        need(re.search(r"\+\+\s*$", loops[0]), "%s: loop without unit increment: %s" % (func, loops[0]))
-        if re.search(r"\bi\s*<\s*naux\b", cond): return "forAux"
-        if re.search(r"\bi\s*<\s*ndim\b", cond) and re.search(r"\bi\s*=\s*0\b", loops[0].split(";")[0]): return "forDim"
-        raise GenError("%s: allocation in an unrecognised loop `%s`" % (func, loops[0]))
+        head, uid = loops[0]
+        c = head.split(";")[1] if head.count(";") == 2 else ""
+        need(re.search(r"\+\+\s*$", head), "%s: loop without unit increment: %s" % (func, head))
+        if re.search(r"\bi\s*<\s*naux\b", c): return ("forAux", uid, lean_cond, " ".join(cond_src))
+        need(not cond, "%s: conditional allocator call in a per-dimension loop: %s" % (func, st))
+        if re.search(r"\bi\s*<\s*ndim\b", c) and re.search(r"\bi\s*=\s*0\b", head.split(";")[0]): return ("forDim", uid, lean_cond, "")
+        raise GenError("%s: allocation in an unrecognised loop `%s`" % (func, head))
 
-    for st, ctx in walk(parse_seq(body)):
+    for pos, (st, ctx) in enumerate(stmts):
         sites = []
         for m in re.finditer(r"\ballocate\s*<\s*([\w:]+)\s*>\s*\(", st):
             q = match_close(st, m.end() - 1)
@@ -444,6 +681,7 @@ def gen_sites(body, func, sizes, mtypes, env, shape_updates=None):
             need(t in sizes, "%s: deallocate of unknown element type %s" % (func, t))
             sites.append({"kind": "free", "type": t, "elem": sizes[t], "src": parts[1], "count": translate(parts[1], env, sizes).lean, "stmt": st, "ptr": parts[0]})
         need(len(sites) <= 1, "%s: more than one allocator call in one statement: %s" % (func, st))
+        need(not sites or not re.match(r"^(return|throw)\b", st), "%s: allocator call in a return/throw statement: %s" % (func, st))
         if shape_updates is not None:
             for name, pat in shape_updates:
                 if re.match(pat, st):
@@ -456,18 +694,34 @@ def gen_sites(body, func, sizes, mtypes, env, shape_updates=None):
             if a and (re.match(r"(this->)?(nknots|order)\[", a[0]) or re.match(r"this->(naxes|strides)\[", a[0])):
                 need(any(re.match(p, st) for _, p in shape_updates), "%s: unrecognised update of the table shape: %s" % (func, st))
         if not sites: continue
-        kind = classify(ctx, st)
+        cl = classify(ctx, st)
+        if cl is None:
+            failure_only.append(st); continue
+        kind, uid, lean_cond, cond_src = cl
+        sites[0]["cond"], sites[0]["cond_src"] = lean_cond, cond_src
+        positions.append(pos)
         if kind == "one": blocks.append(("one", sites[0]))
-        elif blocks and blocks[-1][0] == kind and blocks[-1][2] == ctx: blocks[-1][1].append(sites[0])
-        else: blocks.append((kind, [sites[0]], ctx))
+        elif blocks and blocks[-1][0] == kind and blocks[-1][2] == uid: blocks[-1][1].append(sites[0])
+        else: blocks.append((kind, [sites[0]], uid))
     if shape_updates is not None:
         need(len(upd_seen) == len(shape_updates), "%s: not all shape updates found (%s)" % (func, upd_seen))
     need(any(b[0] != "updateShape" for b in blocks), "%s: no allocator calls found" % func)
-    return [b[:2] for b in blocks]
+    # a loop body is modelled as straight-line code with conditional calls: no `continue`/`break` may come after the
+    # first allocator call of a loop body (before it, `continue` only selects which cards/dimensions are iterated)
+    for b in blocks:
+        if b[0] in ("forAux", "forDim"):
+            inloop = [(pos, st) for pos, (st, ctx) in enumerate(stmts) if any(u == b[2] for _, _, u in ctx)]
+            first = min(pos for pos, st in inloop if st == b[1][0]["stmt"])
+            need(not any(pos > first and re.match(r"^(continue|break|return)\b", st) for pos, st in inloop),
+                 "%s: continue/break/return after an allocator call inside a loop body" % func)
+    info = {"failure_path_only": failure_only,
+            "guard": check_guard(stmts, func, head_src, positions),
+            "pointer_assignments": check_pointer_assignments(stmts, func, mtypes, local_names(body))}
+    return [b[:2] for b in blocks], info, stmts
 
 
 def lean_site(s):
-    return "⟨.%s, %d, fun v => %s⟩" % (s["kind"], s["elem"], s["count"])
+    return "⟨.%s, %d, fun v => %s, fun v => %s⟩" % (s["kind"], s["elem"], s["count"], s["cond"])
 
 
 def lean_blocks(blocks):
@@ -481,7 +735,7 @@ def lean_blocks(blocks):
         else:
             lines.append("  .%s [" % b[0])
             for j, st in enumerate(b[1]):
-                lines.append("      %s%s   -- %s" % (lean_site(st), "," if j < len(b[1]) - 1 else "", st["stmt"]))
+                lines.append("      %s%s   -- %s%s" % (lean_site(st), "," if j < len(b[1]) - 1 else "", st["stmt"], ("   [if (%s)]" % st["cond_src"]) if st.get("cond_src") else ""))
             lines.append("    ]" + sep)
     lines.append("]")
     return "\n".join(lines)
@@ -503,21 +757,36 @@ def generate(repo):
 
     est = gen_estimate(fits_src, sizes, consts)
     mtypes = member_types(head_src)
-    env_read = {"naux": "v.naux", "keylen": "v.keylen", "valuelen": "v.valuelen", "ndim": "v.ndim", "ncoeffs": "v.ncoeffs",
+    env_read = {"naux": "v.naux", "keylen": "v.keylen", "valuelen": "v.valuelen", "storedlen": "v.storedlen", "ndim": "v.ndim", "ncoeffs": "v.ncoeffs",
                 "nknots[i]": "v.nknots", "order[i]": "v.order"}
+    # quantities an `if` around an allocator call inside the per-card loop may compare
+    env_auxcond = {"valuelen": "v.valuelen", "storedlen": "v.storedlen", "keylen": "v.keylen"}
     rbody = function_body(fits_src, r"splinetable<Alloc>::read_fits_core\s*\(")
-    need("deallocate" not in rbody, "read_fits_core now deallocates: event model must be revisited")
     # how the reader obtains the symbols used in the counts
     need(re.search(r"uint64_t ncoeffs\s*=\s*strides\[0\]\s*\*\s*naxes\[0\]\s*;", rbody), "read_fits_core: ncoeffs is no longer strides[0]*naxes[0]")
     need(re.search(r"keylen\s*=\s*strlen\(key\)\s*\+\s*1\s*;", rbody) and re.search(r"valuelen\s*=\s*strlen\(value\)\s*\+\s*1\s*;", rbody),
          "read_fits_core: keylen/valuelen are no longer strlen+1")
-    read_blocks = gen_sites(rbody, "read_fits_core", sizes, mtypes, env_read)
+    if re.search(r"\bstoredlen\b", rbody):
+        need(len(re.findall(r"\bstoredlen\s*(?:=(?!=)|\+\+|--|[-+*/]=)", rbody)) == 1 and
+             re.search(r"size_t storedlen\s*=\s*strlen\(\s*&aux\[i\]\[1\]\[0\]\s*\)\s*\+\s*1\s*;", rbody),
+             "read_fits_core: storedlen is no longer strlen(&aux[i][1][0])+1, assigned once")
+    read_blocks, read_info, rstmts = gen_sites(rbody, "read_fits_core", sizes, mtypes, env_read, head_src, cond_env=env_auxcond)
+    # shape validation of the reader: `if (c) throw` in the per-dimension knot loop, c over nknots[i], order[i], naxes[i]
+    rej, rej_skipped = reject_conditions(rstmts, "read_fits_core", {"nknots[i]": "nknots", "order[i]": "order", "naxes[i]": "naxes"}, sizes,
+                                         r"^unsigned i = 0\s*;\s*i < ndim\s*;\s*i\+\+$")
+    need(re.search(r"nknots\[i\]\s*=\s*nknots_temp\s*;", rbody) or not rej, "read_fits_core: nknots[i] is no longer the size of the KNOTSi image")
     cbody = function_body(conv_src, r"splinetable<Alloc>::convolve\s*\(")
     # `this->naxes[0]*this->strides[0]` is the old coefficient count (members, not the shadowing locals)
     cbody2, nsub = re.subn(r"this->naxes\[0\]\s*\*\s*this->strides\[0\]", "OLDNCOEFFS", cbody)
     env_conv = {"OLDNCOEFFS": "v.ncoeffs", "arraysize": "v.arraysize", "nknots[i]": "v.nknots", "order[i]": "v.order", "ndim": "v.ndim"}
     upd = [("nknots", r"this->nknots\[dim\]\s*=\s*n_rho$"), ("order", r"this->order\[dim\]\s*=\s*convorder$"), ("naxes", r"this->naxes\[dim\]\s*=\s*naxes\[dim\]$")]
-    conv_blocks = gen_sites(cbody2, "convolve", sizes, mtypes, env_conv, shape_updates=upd)
+    conv_blocks, conv_info, cstmts = gen_sites(cbody2, "convolve", sizes, mtypes, env_conv, head_src, shape_updates=upd)
+    # argument checks of convolve: top-level `if (c) throw` over dim, ndim, n_conv_knots; they must precede every allocator call
+    crej, crej_skipped = reject_conditions(cstmts, "convolve", {"dim": "dim", "ndim": "ndim", "n_conv_knots": "n"}, sizes, None)
+    first_site = min(k for k, (st, _) in enumerate(cstmts) if re.search(r"\b(de)?allocate\s*[<(]", st))
+    for src, _ in crej:
+        k = next(k for k, (st, ctx) in enumerate(cstmts) if re.match(r"^throw\b", st) and any(h == src for _, h, _ in ctx))
+        need(k < first_site, "convolve: argument check `%s` comes after an allocator call" % src)
     # definitions of the locals the post-convolution shape is made of (pattern check; their meaning is tied by the event comparison)
     for pat, what in [(r"const uint32_t convorder\s*=\s*order\[dim\]\s*\+\s*n_conv_knots\s*-\s*1\s*;", "convorder"),
                       (r"naxes\[dim\]\s*=\s*n_rho\s*-\s*convorder\s*-\s*1\s*;", "naxes[dim]"),
@@ -559,6 +828,16 @@ def generate(repo):
              ("AFTER" if est["naux_hdu"] == "lastKnots" else "before"))
     L.append("def nauxCounted (primaryHdu lastKnotsHdu : Nat) : Nat := %s" % ("lastKnotsHdu" if est["naux_hdu"] == "lastKnots" else "primaryHdu"))
     L.append("")
+    L.append("/-! ## validation -/")
+    L.append("/-- read_fits_core, per dimension (in the loop over the KNOTSi extensions): the file is rejected (`throw`) when")
+    for src, _ in rej: L.append("      %s" % src)
+    L.append("    (an unsigned subtraction that would wrap makes `!=` true; Lean's truncated subtraction is guarded accordingly) -/")
+    L.append("def readerRejects (nknots order naxes : Nat) : Bool := %s" % (" || ".join(l for _, l in rej) if rej else "false"))
+    L.append("/-- convolve(dim, knots, n) on a table of ndim dimensions throws before touching the allocator when")
+    for src, _ in crej: L.append("      %s" % src)
+    L.append("-/")
+    L.append("def convolveRejects (dim ndim n : Nat) : Bool := %s" % (" || ".join(l for _, l in crej) if crej else "false"))
+    L.append("")
     L.append("/-! ## allocator call sites, in source order -/")
     L.append("/-- read_fits_core (fitsio.h) -/")
     L.append("def readBlocks : List Block := " + lean_blocks(read_blocks))
@@ -567,9 +846,13 @@ def generate(repo):
     L.append("def convolveBlocks : List Block := " + lean_blocks(conv_blocks))
     L.append("")
     L.append("end PsV.Generated.C19")
+    def fmt(s): return s["stmt"] + (("   [if %s]" % s["cond_src"]) if s.get("cond_src") else "")
     summary = {"constants": consts, "estimate": est,
-               "read_sites": [[b[0]] + ([b[1]["stmt"]] if b[0] == "one" else [s["stmt"] for s in b[1]] if b[0] != "updateShape" else []) for b in read_blocks],
-               "convolve_sites": [[b[0]] + ([b[1]["stmt"]] if b[0] == "one" else [s["stmt"] for s in b[1]] if b[0] != "updateShape" else []) for b in conv_blocks]}
+               "reader_rejects": [src for src, _ in rej], "reader_throws_outside_the_size_model": rej_skipped,
+               "convolve_rejects": [src for src, _ in crej],
+               "read_info": read_info, "convolve_info": conv_info,
+               "read_sites": [[b[0]] + ([fmt(b[1])] if b[0] == "one" else [fmt(s) for s in b[1]] if b[0] != "updateShape" else []) for b in read_blocks],
+               "convolve_sites": [[b[0]] + ([fmt(b[1])] if b[0] == "one" else [fmt(s) for s in b[1]] if b[0] != "updateShape" else []) for b in conv_blocks]}
     return "\n".join(L) + "\n", summary
 
 
